@@ -6,6 +6,7 @@ import shutil
 import subprocess
 
 import core
+import scale
 import trees
 from ref import oracle
 from props import creators_common as cc
@@ -40,7 +41,17 @@ RULE = ("model tie (unit correspondence of Model/Creators.v + Model/Bencode.v en
         "trailing separator, link text relative and absolute, working directory entered through the link), the content path ITSELF a "
         "symlink to the payload directory / to the single file, and a copy of the tree one of whose entries is a symlink to the same "
         "bytes elsewhere (a file outside the payload, another file of it, a directory outside it) -- info must be byte-identical to "
-        "that of the plain tree of regular files.  Distinct = distinct (tree, creator, variant); non-trivial = the variant differs from the base input.")
+        "that of the plain tree of regular files; (e) payloads AT SCALE (harness/scale.py: piece lengths 2 .. 16 MiB, thorough also 32 MiB, "
+        "files of 1 .. 65 MiB whose sizes are aimed at 1 / 4 / 8 MiB read windows -- a last piece longer than 1 MiB, sizes that are multiples "
+        "of 1 MiB but not of the piece length, more than 1 MiB of padding): progress 1 / 2 through the library argument and `--prog`, "
+        "and -q, against progress 0, for routes of the v1 family (class v1 / v1-align, cli 1 / 1 --align) and of the v2 / hybrid family "
+        "(quick: 5 of the shapes x 4 routes; thorough: every shape and 6 random ones x 7 routes); (f) automatic piece length x LOCATION: "
+        "byte-identical copies of one tree (a sparse file plus small files in nested and empty directories; total of file bytes 1, 1500, "
+        "10000, 60000 below and one byte above a step 1000 * 2^k of the automatic choice, k = 14, 15; thorough .. 17) in fresh directories "
+        "of the scratch file system, in directories that once held 400 entries (their st_size stays large) and under /dev/shm when "
+        "writable (tmpfs: a few dozen bytes per directory), no piece length given, four class creators and three CLI versions in "
+        "rotation: every copy must give the metafile of the first.  Distinct = distinct (tree, creator, variant); non-trivial = the "
+        "variant differs from the base input.")
 TRUSTED_BASE = [
     "Coq 8.16.1 kernel; theorems closed under the global context; SHA-1 / SHA-256 are arbitrary functions in every theorem",
     "hand models Model/Creators.v (torrent.py creators, utils._filelist_total), Model/Bencode.v (pyben's encoder) and Spec/PathSem.v "
@@ -851,6 +862,210 @@ def auto_piece_length(ctx):
                              exp, obs)
 
 
+# ------------------------------------------------------------------------------------------------ aimed: payloads at scale
+# Everything above uses piece lengths of 16 .. 32 KiB.  harness/scale.py lists payload shapes at piece lengths of 2 .. 32 MiB whose
+# file sizes are aimed at read windows of 1 / 4 / 8 MiB (a file whose last piece holds more than 1 MiB, sizes that are multiples
+# of 1 MiB but not of the piece length, tails one byte either side of a window).  A creator that reads a piece in chunks when a
+# progress bar is shown, or buffers differently when quiet, is exercised only there: for each payload the metafile written with
+# progress 0 is the base and progress 1 / 2 (library argument and `--prog`; on the command line also -q) must give the identical
+# info span and be identical outside 'creation date'.  The files are pure functions of (size, salt): a replay carries the tree.
+SCALE_NAMES = ["payload", "pay load", "P"]
+
+
+def scale_case(ctx, j, thorough):
+    """case j at scale: (case dict, classes)"""
+    pl, tree, cl = scale.gen(ctx.rng, j, thorough=thorough, max_total=40 * scale.MIB)
+    flat = {comps: (len(data), f"c08-scale-{j}-{n}") for n, (comps, data) in enumerate(tree.items())}
+    del tree
+    node = cc.from_flat(flat)
+    return {"node": node, "pl": pl, "payload": SCALE_NAMES[j % len(SCALE_NAMES)], "info_opts": INFO_OPTS[j % len(INFO_OPTS)],
+            "index": f"scale{j}", "flavour": "scale"}, sorted(cl)
+
+
+def scale_progress(ctx):
+    """progress modes 0 / 1 / 2 (and -q on the command line) on payloads at scale, v1 family and v2 / hybrid family of routes"""
+    core.use_repo_in_process()
+    thorough = ctx.tier == "thorough"
+    ntpl = len(scale.templates(thorough))
+    picks = list(range(ntpl)) + list(range(ntpl, ntpl + 6)) if thorough else sorted(ctx.rng.sample(range(ntpl), 5))
+    v1_routes = [r for r in ROUTES if route_name(r) in ("class v1", "class v1-align", "cli --meta-version 1", "cli --meta-version 1 --align")]
+    v2_routes = [r for r in ROUTES if r not in v1_routes]
+    with core.Scratch("vc08p_") as tmp:
+        tmp = os.path.realpath(tmp)
+        os.environ["HOME"] = os.path.join(tmp, "home")
+        os.makedirs(os.environ["HOME"], exist_ok=True)
+        for n, j in enumerate(picks):
+            case, cl = scale_case(ctx, j, thorough)
+            case_dir = os.path.join(tmp, f"s{j}")
+            cc.make_case_dir(case_dir, case["payload"], case["node"])
+            cc._DATA.clear()              # tens of MiB per file: do not keep them in the generator's cache
+            if thorough:
+                routes = v1_routes + [v2_routes[(n + k) % len(v2_routes)] for k in range(3)]
+            else:
+                routes = [v1_routes[(n + ctx.seed) % len(v1_routes)], v1_routes[(n + ctx.seed + 2) % len(v1_routes)],
+                          v2_routes[(n + ctx.seed) % len(v2_routes)], v2_routes[(n + ctx.seed + 3) % len(v2_routes)]]
+            for route in routes:
+                base = dict(BASE_VARIANT)
+                try:
+                    braw = run_variant(case_dir, case, route, base, "base")
+                    observe(braw)
+                except Exception as e:  # noqa
+                    ctx.fail("base-create-raised", case_input(case, route, base, base), "a metafile", f"{type(e).__name__}: {e}")
+                    continue
+                variants = [variant("progress 1", "progress", progress=1), variant("progress 2", "progress", progress=2)]
+                if route[0] == "cli":
+                    variants.append(variant("--quiet, progress 2", "progress", quiet=True, progress=2))
+                    if thorough:
+                        variants.append(variant("--quiet", "progress", quiet=True))
+                for var in variants:
+                    try:
+                        raw = run_variant(case_dir, case, route, var, "var")
+                        problems = compare(braw, raw, ())
+                    except Exception as e:  # noqa
+                        problems = [("create-raised", "a metafile, as for the base", f"{type(e).__name__}: {str(e)[:300]}")]
+                    ctx.case(key=("e2e-scale", j, route_name(route), var["label"]), nontrivial=True,
+                             classes=cl + ["variant: progress at scale", "variant: progress", route_name(route)])
+                    for kind, exp, obs in problems:
+                        ctx.fail(f"{kind}:progress at scale", case_input(case, route, base, var), exp, obs,
+                                 detail=f"{route_name(route)}; piece length {case['pl']}; variant {var['label']}")
+            shutil.rmtree(case_dir, ignore_errors=True)
+
+
+# ------------------------------------------------------------------------------------------------ aimed: automatic piece length x location
+# With no piece length given the tool chooses one from the payload's total size; the choice steps up at totals of 1000 * 2^k
+# bytes.  The choice is part of info, so it must depend on the payload only -- not on where the copy lives.  What differs between
+# byte-identical copies at different locations is the file system's own bookkeeping, above all the st_size a DIRECTORY reports:
+# 4096 for a fresh ext4 directory, 24576 and more for one that once held a few hundred entries (it never shrinks), a few dozen
+# bytes on tmpfs (/dev/shm).  Copies of one tree -- a sparse file plus small files in nested directories, total a margin below /
+# one byte above a step -- are created at such locations; the margins (1, 1500, 10000, 60000 bytes) lie between the directory
+# overheads of the locations, so a total that counts anything but file bytes steps up in one copy and not in another.
+AUTO_LOC_ROUTES = [["class", "TorrentFile"], ["class", "TorrentFileV2"], ["class", "TorrentFileHybrid"], ["class", "TorrentAssembler"],
+                   ["cli", "1"], ["cli", "2"], ["cli", "3"]]
+AUTO_LOC_SMALL = {("a.txt",): 10, ("sub", "b.bin"): 70001, ("sub", "deeper", "c"): 1, ("sub", "z-last"): 300}
+AUTO_LOC_EMPTY = [("sub", "empty dir"), ("other",)]
+
+
+def auto_loc_write(root, total, used):
+    """the tree at <root>/data with the given total of file bytes; used: every directory first holds 400 entries that are removed again"""
+    dirs = sorted({comps[:k] for comps in list(AUTO_LOC_SMALL) + [c + ("x",) for c in AUTO_LOC_EMPTY] for k in range(len(comps))})
+    for d in dirs:
+        p = os.path.join(root, "data", *d)
+        if not os.path.isdir(p):
+            os.makedirs(p)
+            if used:
+                for i in range(400):
+                    open(os.path.join(p, f"an entry with a long name {i:05d}"), "wb").close()
+                for i in range(400):
+                    os.remove(os.path.join(p, f"an entry with a long name {i:05d}"))
+    for comps, size in AUTO_LOC_SMALL.items():
+        with open(os.path.join(root, "data", *comps), "wb") as fd:
+            fd.write(cc.data_of(size, "c08-autoloc-" + "/".join(comps)))
+    with open(os.path.join(root, "data", "sparse.img"), "wb") as fd:
+        fd.truncate(total - sum(AUTO_LOC_SMALL.values()))          # a hole: nothing large is written
+
+
+def auto_loc_dirsizes(root):
+    return sorted({os.stat(os.path.join(dp, d)).st_size for dp, dn, _ in os.walk(root) for d in dn})
+
+
+def auto_loc_create(root, route, tag):
+    payload = os.path.join(root, "data")
+    out = os.path.join(root, tag + ".torrent")
+    with cc.patched(cwd=root, clock=T0):
+        if route[0] == "class":
+            from torrentfile import torrent
+            kw = {"meta_version": "3"} if route[1] == "TorrentAssembler" else {}
+            t = trees.quiet(getattr(torrent, route[1]), path=payload, progress=0, outfile=out, **kw)
+            trees.quiet(t.write)
+        else:
+            from torrentfile.cli import execute
+            try:
+                trees.quiet(execute, ["create", payload, "--meta-version", route[1], "--prog", "0", "-o", out])
+            except SystemExit as e:
+                raise RuntimeError(f"the command line exited with {e.code}")
+    return oracle.read(out)
+
+
+def auto_loc_places(tmp):
+    """[(label, directory, used)] -- the scratch directory twice (fresh / used-and-emptied directories) and /dev/shm when writable"""
+    places = [("fresh directories in the scratch directory", os.path.join(tmp, "fresh"), False),
+              ("directories that held 400 entries each, since removed", os.path.join(tmp, "used"), True)]
+    shm = None
+    if os.path.isdir("/dev/shm") and os.access("/dev/shm", os.W_OK):
+        try:
+            import tempfile
+            shm = tempfile.mkdtemp(prefix="vc08shm_", dir="/dev/shm")
+            places.append(("fresh directories under /dev/shm", shm, False))
+        except OSError:
+            shm = None
+    return places, shm
+
+
+def auto_loc_judge(tmp, total, route, places, tag):
+    """problems of each copy against the first: [(place label, directory sizes, kind, expected, observed)]"""
+    raws = []
+    for label, root, used in places:
+        if os.path.isdir(os.path.join(root, "data")):
+            os.truncate(os.path.join(root, "data", "sparse.img"), total - sum(AUTO_LOC_SMALL.values()))
+        else:
+            auto_loc_write(root, total, used)
+        try:
+            raws.append(auto_loc_create(root, route, tag))
+        except Exception as e:  # noqa
+            raws.append(e)
+    out = []
+    if isinstance(raws[0], Exception):
+        return [(places[0][0], auto_loc_dirsizes(places[0][1]), "base-raised", "a metafile", f"{type(raws[0]).__name__}: {raws[0]}")]
+    for (label, root, _), raw in zip(places[1:], raws[1:]):
+        if isinstance(raw, Exception):
+            probs = [("create-raised", "a metafile, as for the first copy", f"{type(raw).__name__}: {str(raw)[:300]}")]
+        else:
+            probs = compare(raws[0], raw, ())
+        out += [(label, auto_loc_dirsizes(root), k, e, o) for k, e, o in probs]
+    return out
+
+
+def auto_loc_input(total, step, margin, route, places):
+    return {"kind": "auto-piece-length-location", "total_file_bytes": total, "step": f"1000 * 2^{step}", "margin": margin, "route": route,
+            "piece_length": "automatic", "payload": dict({"/".join(k): v for k, v in AUTO_LOC_SMALL.items()},
+                                                         **{"sparse.img": total - sum(AUTO_LOC_SMALL.values())},
+                                                         **{"/".join(k) + "/": "empty dir" for k in AUTO_LOC_EMPTY}),
+            "copies": [p[0] for p in places], "base": places[0][0]}
+
+
+def auto_piece_length_locations(ctx):
+    core.use_repo_in_process()
+    thorough = ctx.tier == "thorough"
+    steps = [14, 15, 16, 17] if thorough else [14, 15]
+    with core.Scratch("vc08d_") as tmp:
+        tmp = os.path.realpath(tmp)
+        os.environ["HOME"] = tmp
+        places, shm = auto_loc_places(tmp)
+        try:
+            n = ctx.seed
+            for step in steps:
+                margins = [-1, -1500, -10000, -60000, 1] if thorough or step == 14 else [-1500, -10000]
+                for margin in margins:
+                    total = 1000 * 2 ** step + margin
+                    routes = AUTO_LOC_ROUTES if thorough and step == 14 else \
+                        [AUTO_LOC_ROUTES[n % len(AUTO_LOC_ROUTES)]] + ([AUTO_LOC_ROUTES[(n + 4) % len(AUTO_LOC_ROUTES)]] if step == 14 else [])
+                    n += 1
+                    for route in routes:
+                        problems = auto_loc_judge(tmp, total, route, places, "m")
+                        ctx.case(key=("auto-pl-location", step, margin, json.dumps(route)), nontrivial=True,
+                                 classes=["automatic piece length x location of the copy",
+                                          f"automatic piece length: total {'one byte above' if margin > 0 else str(-margin) + ' below'} a step",
+                                          "creator " + " ".join(route)] +
+                                 [f"copy: {p[0]} (directory st_size {auto_loc_dirsizes(p[1])})" for p in places])
+                        for label, dirsizes, kind, exp, obs in problems:
+                            ctx.fail(f"{kind}:automatic piece length x location", dict(auto_loc_input(total, step, margin, route, places),
+                                                                                      differing_copy=label, its_directory_sizes=dirsizes),
+                                     exp, obs, detail=f"{' '.join(route)}; total {total} = 1000 * 2^{step} {margin:+d}; copy: {label}")
+        finally:
+            if shm:
+                shutil.rmtree(shm, ignore_errors=True)
+
+
 def run(ctx, model_ok):
     cc.pathsem(ctx, model_ok)
     quick = ctx.tier == "quick"
@@ -858,6 +1073,8 @@ def run(ctx, model_ok):
     cc.require_classes(ctx)          # Appendix B: the correspondence generator itself must hit every class twice
     e2e(ctx)
     auto_piece_length(ctx)
+    auto_piece_length_locations(ctx)
+    scale_progress(ctx)
     symlinks(ctx)
     stolen_paths(ctx)
     outfile_inside_payload(ctx)
@@ -908,6 +1125,25 @@ def replay(ctx, data):
         if not hits:
             print("[C08 replay] the variant now agrees with the base (info identical)")
         return 1 if hits else 0
+    if inp.get("kind") == "auto-piece-length-location":
+        core.use_repo_in_process()
+        with core.Scratch("vc08r_") as tmp:
+            tmp = os.path.realpath(tmp)
+            os.environ["HOME"] = tmp
+            places, shm = auto_loc_places(tmp)
+            try:
+                problems = auto_loc_judge(tmp, inp["total_file_bytes"], inp["route"], places, "r")
+                sizes = {p[0]: auto_loc_dirsizes(p[1]) for p in places}
+            finally:
+                if shm:
+                    shutil.rmtree(shm, ignore_errors=True)
+        print(f"[C08 replay] {' '.join(inp['route'])}, no piece length given; payload {inp.get('payload')} (total {inp['total_file_bytes']} "
+              f"= {inp.get('step')} {inp.get('margin'):+d}); copies and the st_size of their directories: {sizes}")
+        for label, dirsizes, kind, exp, obs in problems:
+            print(f"[C08 replay] VIOLATION {kind} (copy: {label})\n   base   : {exp}\n   variant: {obs}")
+        if not problems:
+            print("[C08 replay] every copy gives the same metafile as the first (info identical)")
+        return 1 if problems else 0
     if inp.get("kind") in ("stolen-path", "outfile-inside"):
         core.use_repo_in_process()
         with core.Scratch("vc08r_") as tmp:
